@@ -437,6 +437,178 @@ fn native_spec() {
                 }
             }
         }
+    } else if target == "validate_required_step" {
+        // C03/C10: what validate_required reports as missing, on small families
+        let names = |e: &crate::Error| -> Vec<String> {
+            match e.get(crate::error::ContextKind::InvalidArg) {
+                Some(crate::error::ContextValue::Strings(v)) => v.clone(),
+                Some(crate::error::ContextValue::String(s)) => vec![s.clone()],
+                _ => vec![],
+            }
+        };
+        // required_if_eq_any: ANY listed (arg, value) pair being present makes the argument required
+        for mask in 0..8u8 {
+            let conds = [("a", "1"), ("b", "1"), ("c", "1")];
+            let cmd = Command::new("p")
+                .arg(Arg::new("a").long("a").action(ArgAction::Set))
+                .arg(Arg::new("b").long("b").action(ArgAction::Set))
+                .arg(Arg::new("c").long("c").action(ArgAction::Set))
+                .arg(Arg::new("t").long("t").action(ArgAction::Set).required_if_eq_any(conds));
+            let mut argv = vec!["p".to_string()];
+            for (k, (n, _)) in conds.iter().enumerate() {
+                argv.push(format!("--{n}"));
+                argv.push(if mask & (1 << k) != 0 { "1".into() } else { "0".into() });
+            }
+            let r = cmd.try_get_matches_from(argv.clone());
+            let want_err = mask != 0;
+            match r {
+                Ok(_) if want_err => println!("SPEC-REPLAY MISMATCH target=validate_required_step case=required_if_eq_any {argv:?}: accepted although a listed condition holds"),
+                Err(e) if !want_err => println!("SPEC-REPLAY MISMATCH target=validate_required_step case=required_if_eq_any {argv:?}: rejected ({:?}) although no condition holds", e.kind()),
+                Err(e) if e.kind() != ErrorKind::MissingRequiredArgument || names(&e) != ["--t <t>"] =>
+                    println!("SPEC-REPLAY MISMATCH target=validate_required_step case=required_if_eq_any {argv:?}: kind={:?} names={:?}", e.kind(), names(&e)),
+                _ => {}
+            }
+        }
+        // required_if_eq_all: ALL pairs must hold
+        for mask in 0..4u8 {
+            let cmd = Command::new("p")
+                .arg(Arg::new("a").long("a").action(ArgAction::Set))
+                .arg(Arg::new("b").long("b").action(ArgAction::Set))
+                .arg(Arg::new("t").long("t").action(ArgAction::Set).required_if_eq_all([("a", "1"), ("b", "1")]));
+            let argv = vec!["p", "--a", if mask & 1 != 0 { "1" } else { "0" }, "--b", if mask & 2 != 0 { "1" } else { "0" }];
+            let r = cmd.try_get_matches_from(argv.clone());
+            if r.is_err() != (mask == 3) {
+                println!("SPEC-REPLAY MISMATCH target=validate_required_step case=required_if_eq_all {argv:?}: rejected={}", r.is_err());
+            }
+        }
+        // required_unless_present_any / _all
+        for mask in 0..4u8 {
+            for all in [false, true] {
+                let t = Arg::new("t").long("t").action(ArgAction::Set);
+                let t = if all { t.required_unless_present_all(["a", "b"]) } else { t.required_unless_present_any(["a", "b"]) };
+                let cmd = Command::new("p").arg(Arg::new("a").long("a").action(ArgAction::SetTrue)).arg(Arg::new("b").long("b").action(ArgAction::SetTrue)).arg(t);
+                let mut argv = vec!["p"];
+                if mask & 1 != 0 { argv.push("--a"); }
+                if mask & 2 != 0 { argv.push("--b"); }
+                let excused = if all { mask == 3 } else { mask != 0 };
+                let r = cmd.try_get_matches_from(argv.clone());
+                if r.is_err() == excused {
+                    println!("SPEC-REPLAY MISMATCH target=validate_required_step case=required_unless_present_{} {argv:?}: rejected={}", if all { "all" } else { "any" }, r.is_err());
+                }
+            }
+        }
+        // an exclusive argument that is present excuses every requirement
+        {
+            let cmd = Command::new("p").arg(Arg::new("x").long("x").action(ArgAction::SetTrue).exclusive(true)).arg(Arg::new("t").long("t").action(ArgAction::Set).required(true));
+            if cmd.clone().try_get_matches_from(["p", "--x"]).is_err() {
+                println!("SPEC-REPLAY MISMATCH target=validate_required_step case=exclusive flag present, required option absent: rejected");
+            }
+            if cmd.try_get_matches_from(["p"]).map_err(|e| e.kind()) != Err(ErrorKind::MissingRequiredArgument) {
+                println!("SPEC-REPLAY MISMATCH target=validate_required_step case=required option absent: not MissingRequiredArgument");
+            }
+        }
+        // a required group is satisfied by any member
+        for mask in 0..4u8 {
+            let cmd = Command::new("p").arg(Arg::new("a").long("a").action(ArgAction::SetTrue)).arg(Arg::new("b").long("b").action(ArgAction::SetTrue))
+                .group(crate::ArgGroup::new("g").args(["a", "b"]).required(true).multiple(true));
+            let mut argv = vec!["p"];
+            if mask & 1 != 0 { argv.push("--a"); }
+            if mask & 2 != 0 { argv.push("--b"); }
+            let r = cmd.try_get_matches_from(argv.clone());
+            if r.is_err() != (mask == 0) {
+                println!("SPEC-REPLAY MISMATCH target=validate_required_step case=required group {argv:?}: rejected={}", r.is_err());
+            }
+        }
+        // the missing list: preceding positionals are named only below the highest missing NON-last index
+        {
+            let cmd = Command::new("p").arg(Arg::new("first")).arg(Arg::new("second")).arg(Arg::new("cmd").last(true).required(true).num_args(1..));
+            for argv in [vec!["p"], vec!["p", "a"]] {
+                match cmd.clone().try_get_matches_from(argv.clone()) {
+                    Err(e) if e.kind() == ErrorKind::MissingRequiredArgument && names(&e) == ["<cmd>..."] => {}
+                    Err(e) => println!("SPEC-REPLAY MISMATCH target=validate_required_step case=missing `last` positional {argv:?}: kind={:?} names={:?}", e.kind(), names(&e)),
+                    Ok(_) => println!("SPEC-REPLAY MISMATCH target=validate_required_step case=missing `last` positional {argv:?}: accepted"),
+                }
+            }
+            let cmd = Command::new("p").arg(Arg::new("x").long("x").action(ArgAction::SetTrue)).arg(Arg::new("first")).arg(Arg::new("second"))
+                .arg(Arg::new("third").required_unless_present("x")).arg(Arg::new("fourth"));
+            match cmd.try_get_matches_from(["p"]) {
+                Err(e) if e.kind() == ErrorKind::MissingRequiredArgument && names(&e) == ["<first>", "<second>", "<third>"] => {}
+                Err(e) => println!("SPEC-REPLAY MISMATCH target=validate_required_step case=missing third positional: kind={:?} names={:?}", e.kind(), names(&e)),
+                Ok(_) => println!("SPEC-REPLAY MISMATCH target=validate_required_step case=missing third positional: accepted"),
+            }
+        }
+    } else if target == "direct_conflicts" {
+        // C03: conflicts declared on an argument, on its group (multiple or not), and between members of a non-multiple group
+        for multiple in [false, true] {
+            for (argv, want_conflict) in [
+                (vec!["p", "--a"], false),
+                (vec!["p", "--a", "--b"], !multiple),
+                (vec!["p", "--a", "--c"], true),
+                (vec!["p", "--c", "--b"], true),
+                (vec!["p", "--c"], false),
+                (vec!["p", "--a", "--d"], true),
+                (vec!["p", "--d", "--a"], true),
+                (vec!["p", "--b", "--d"], false),
+                (vec!["p", "--c", "--d"], false),
+            ] {
+                let cmd = Command::new("p")
+                    .arg(Arg::new("a").long("a").action(ArgAction::SetTrue).conflicts_with("d"))
+                    .arg(Arg::new("b").long("b").action(ArgAction::SetTrue))
+                    .arg(Arg::new("c").long("c").action(ArgAction::SetTrue))
+                    .arg(Arg::new("d").long("d").action(ArgAction::SetTrue))
+                    .group(crate::ArgGroup::new("g").args(["a", "b"]).multiple(multiple).conflicts_with("c"));
+                let r = cmd.try_get_matches_from(argv.clone());
+                let got = matches!(&r, Err(e) if e.kind() == ErrorKind::ArgumentConflict);
+                if got != want_conflict || (r.is_err() && !got) {
+                    println!("SPEC-REPLAY MISMATCH target=direct_conflicts case=group(multiple={multiple}, conflicts_with c) {argv:?}: conflict reported={got}, expected={want_conflict} ({:?})", r.as_ref().err().map(|e| e.kind()));
+                }
+            }
+        }
+        // ... and a group that conflicts with another GROUP (seen only from the declaring group's members)
+        for multiple in [false, true] {
+            for (argv, want_conflict) in [
+                (vec!["p", "--a", "--c"], true),
+                (vec!["p", "--e", "--b"], true),
+                (vec!["p", "--a", "--b", "--e"], true),
+                (vec!["p", "--a", "--b"], !multiple),
+                (vec!["p", "--c"], false),
+                (vec!["p", "--a"], false),
+            ] {
+                let cmd = Command::new("p")
+                    .arg(Arg::new("a").long("a").action(ArgAction::SetTrue))
+                    .arg(Arg::new("b").long("b").action(ArgAction::SetTrue))
+                    .arg(Arg::new("c").long("c").action(ArgAction::SetTrue))
+                    .arg(Arg::new("e").long("e").action(ArgAction::SetTrue))
+                    .group(crate::ArgGroup::new("g").args(["a", "b"]).multiple(multiple).conflicts_with("h"))
+                    .group(crate::ArgGroup::new("h").args(["c", "e"]));
+                let r = cmd.try_get_matches_from(argv.clone());
+                let got = matches!(&r, Err(e) if e.kind() == ErrorKind::ArgumentConflict);
+                if got != want_conflict || (r.is_err() && !got) {
+                    println!("SPEC-REPLAY MISMATCH target=direct_conflicts case=group g(multiple={multiple}) conflicts_with group h {argv:?}: conflict reported={got}, expected={want_conflict} ({:?})", r.as_ref().err().map(|e| e.kind()));
+                }
+            }
+        }
+    } else if target == "usage_hidden_positional" {
+        // C12: an optional positional with `hide` set is not named in the usage line, `last` or not, multi-value or not
+        for last in [false, true] {
+            for multi in [false, true] {
+                for hide in [false, true] {
+                    let mut p = Arg::new("zzpass").value_name("ZZPASS").action(ArgAction::Append).last(last).hide(hide);
+                    if multi {
+                        p = p.num_args(1..);
+                    }
+                    let mut cmd = Command::new("p").disable_help_flag(true).arg(Arg::new("input")).arg(p);
+                    let usage = cmd.render_usage().to_string();
+                    let help = cmd.render_help().to_string();
+                    for (what, text) in [("render_usage", &usage), ("render_help", &help)] {
+                        let shown = text.contains("ZZPASS");
+                        if shown == hide || !text.contains("[input]") || (hide && text.contains("--")) {
+                            println!("SPEC-REPLAY MISMATCH target=usage_hidden_positional case=last={last} num_args(1..)={multi} hide={hide} {what}: {:?}", text);
+                        }
+                    }
+                }
+            }
+        }
     } else if target == "match_arg_error" {
         // C10: the error kind names a rule the input really breaks
         for acws in [false, true] {
